@@ -15,7 +15,7 @@ CRASH_NOTE = ("Trusted base: the supervisor (worker processes, shared progress p
 
 CHECKS = {
  "C01": ("hw", "differential runtime monitoring against the CPU (ptrace single-step oracle) + census replay", "2.1, 4/C01",
-         "Every trial's complete post-state (16 GPRs, 16 XMM, FS/GS base, RIP, 52 KiB of mirrored memory) is compared with the CPU's for the same bytes and pre-state; held = no disagreement in the sampled trials of ~270 data-processing forms x operand shapes x flag states, and every form of the pinned census still executes. A persistent-machine stratum reuses one emulator for 250 consecutive trials (state reset through the API only), so hidden state such as caches is exposed to the same per-step comparison.", HW_NOTE),
+         "Every trial's complete post-state (16 GPRs, 16 XMM, FS/GS base, RIP, 52 KiB of mirrored memory) is compared with the CPU's for the same bytes and pre-state; held = no disagreement in the sampled trials of ~270 data-processing forms x operand shapes x flag states, and every form of the pinned census still executes. A persistent-machine stratum reuses one emulator for 250 consecutive trials (state reset through the API only), so hidden state such as caches is exposed to the same per-step comparison. A data instruction that the step refuses or crashes on although the CPU completes it (the form no longer executes, the registers are not the CPU's), or that completes although the CPU faults, is reported here as well as under C06.", HW_NOTE),
  "C02": ("hw", "differential runtime monitoring against the CPU (ptrace single-step oracle), flag comparison masked to architecturally defined flags", "2.1, 4/C02",
          "CF/PF/ZF/SF/OF/DF after every trial are compared with the CPU's wherever the SDM defines them (dynamic rules for shift counts); incoming flags are random so stale flags are visible; shift counts and imm8 values are enumerated completely. A persistent-machine stratum (half of the machines with do-nothing hooks attached) shows that flags depend on the instruction and its inputs only, not on who is listening or on what ran before.", HW_NOTE),
  "C03": ("hw", "differential runtime monitoring against the CPU (ptrace single-step oracle), exhaustive Jcc x flag-state enumeration", "2.1, 4/C03",
@@ -51,7 +51,7 @@ CHECKS = {
  "C18": ("events", "runtime monitoring against an independent tracer (own decode, own condition table) compared with the structured trace and call stack after every step; renderers called at every step", "2.2, 4/C18",
          "Programs of jumps, conditional jumps on all conditions, direct/indirect calls, matched and unmatched returns, ending normally or in an error, are stepped; the expected trace entries (source, target, kind, run-length count, level) and call stack are maintained independently and compared after every step, and trace()/call_stack()/to_string() must return Ok at every step and in every terminal state. A deep-recursion stratum nests up to 33000 (thorough: 70000) calls and returns through them, compared at checkpoints. In the middle of a run the code may lose its execute permission or be overwritten: the next step fails and the trace - whose entries now point at undecodable code - must still render (a hang is caught by the progress watchdog).", EVENT_NOTE),
  "C19": ("crash", "runtime monitoring in supervised worker processes: catch_unwind around step() on hostile byte strings and states, progress watchdog", "2.3, 4/C19",
-         "Millions of (byte string, steered register/flag/memory state) inputs - uniform, prefix/opcode-structured over all opcode maps, and mutated encodings of implemented forms - are stepped once each on the hardware-mirrored layout, and for 1-6 steps on edge layouts (code/data/stack areas at both ends of the address space and around the non-canonical hole, zero-length areas, register values on every area edge, machines that were never fully initialised, unallocatable resizes and revoked execute permission between steps); with the hooks on, whatever still unwinds, aborts or stalls is a crash and is reported with the exact input.", CRASH_NOTE),
+         "Millions of (byte string, steered register/flag/memory state) inputs - uniform, prefix/opcode-structured over all opcode maps, and mutated encodings of implemented forms - are stepped once each on the hardware-mirrored layout, and for 1-6 steps on edge layouts (code/data/stack areas at both ends of the address space and around the non-canonical hole, zero-length areas, register values on every area edge, machines that were never fully initialised, unallocatable resizes and revoked execute permission between steps), and on machines with the built-in syscall handlers installed and pipes created by earlier steps, where `syscall` is reached with edge and extreme argument registers (buffer addresses on area edges, byte counts up to 2^64-1, break addresses at both ends of the address space); with the hooks on, whatever still unwinds, aborts or stalls is a crash and is reported with the exact input.", CRASH_NOTE),
  "C20": ("events", "runtime monitoring: twin machines in one process and replicas in 4 worker processes compared on every observable; used-register analysis bounds the comparison to defined registers", "2.2, 4/C20",
          "The same code and explicit inputs (a random subset of the registers, flags, memory, hooks, syscall handlers) are run on independently constructed machines in one process and in separate processes; results, error texts, defined registers, flags, memory, counts, traces must be identical, so any dependence on the constructor's random registers, HashMap seeds or other process-level randomness shows. Definedness is tracked per byte of every GPR (inputs are also written through 8/16-bit views; `mov dh,1` defines one byte), and one of the two twins additionally sees neutral host-side operations.", EVENT_NOTE),
 }
